@@ -292,7 +292,9 @@ def _run_check(mod, prop, tier, seed, replay, known, builds, rundir, t0):
         for v in r.violations:
             fam = getattr(v, "family", "")
             if fam and (prop, v.key) not in known and not v.key.endswith(fam):
-                v.key += fam
+                # oracle verdicts inside the family share ONE key per property (the many shapes one defect takes in
+                # reports would otherwise yield an open-ended set of keys); crashes and sanitizer reports keep theirs
+                v.key = ("oracle:%s:any%s" % (prop, fam)) if v.key.startswith("oracle:") else v.key + fam
             viol_keys.setdefault(v.key, []).append((r, v))
     n_nontriv = len(nontriv)
     if hasattr(mod, "count_nontrivial"):
